@@ -398,6 +398,9 @@ impl Prop for C10 {
             GenSpec::enumerated("scaling", tier.pick(8, 11)),
             // single records between 32 KiB and the 65534-byte limit (what a foreign writer may legally produce): accepted ones must be writable again
             GenSpec::random("big-records", tier.pick(24, 400)),
+            // one well-formed record repeated tens of thousands of times in a row (MAG, ANGLE, PROPATTR/PROPVALUE pairs, XY, STRING ...):
+            // handling a run must need neither time nor stack proportional to more than its length
+            GenSpec::enumerated("long-runs", tier.pick(8, 24)),
             // interpreter-sized cases for the Miri leg (tools/legs.sh runs them one by one through `lvh one`); not part of the native plan
             GenSpec::random("miri-sample", 0),
             // instruction-count leg (tools/irleg.sh runs these under valgrind --tool=cachegrind): one parse of a stream of 512 * 2^(n/2) elements;
@@ -557,6 +560,31 @@ impl Prop for C10 {
                 }
                 self.probe(cx, &v, false, "miri", &mut st);
                 cx.nontrivial(crate::rt::prng::byteshash(&bytes));
+            }
+            "long-runs" => {
+                let reps = 40_000usize << (cx.n / 8);
+                let strans = Some(NStrans { flags: 0, mag: Some(encode_ref(2.0).unwrap()), angle: Some(encode_ref(90.0).unwrap()) });
+                let sref = NElem { elflags: Some([0, 1]), plex: Some(3), kind: NKind::Sref { sname: b"t".to_vec(), strans, xy: vec![1, 2] }, props: vec![(1, b"pv".to_vec())] };
+                let text = NElem { elflags: None, plex: None, kind: NKind::Text { layer: 1, texttype: 0, presentation: Some([0, 5]), pathtype: Some(0), width: Some(2), strans: None, xy: vec![0, 0], string: b"tx".to_vec() }, props: vec![] };
+                let one = NLib { version: 600, name: b"runs".to_vec(), units: (encode_ref(1e-3).unwrap(), encode_ref(1e-9).unwrap()), structs: vec![NStruct { dates: [0; 12], name: b"s".to_vec(), elems: vec![sref, text] }], ..Default::default() };
+                let e = encode(&one, &EncOpts::default());
+                // which record to repeat: MAG, ANGLE, PROPATTR+PROPVALUE (as a pair), ELFLAGS, PLEX, STRING, XY, ENDEL+SREF.. (a run of tiny elements)
+                let want_rt: u8 = [0x1B, 0x1C, 0x2B, 0x26, 0x2F, 0x19, 0x10, 0x17][(cx.n % 8) as usize];
+                if let Some(i) = e.offsets.iter().position(|o| e.out[*o + 2] == want_rt) {
+                    let a = e.offsets[i];
+                    let b = if want_rt == 0x2B { e.offsets[i + 2] } else { e.offsets[i + 1] };
+                    let mut v = e.out[..b].to_vec();
+                    for _ in 0..reps {
+                        v.extend_from_slice(&e.out[a..b]);
+                    }
+                    v.extend_from_slice(&e.out[b..]);
+                    cx.nontrivial(crate::rt::prng::byteshash(&v[..b.min(200)]) ^ reps as u64);
+                    let mut st = Stats::default();
+                    self.probe(cx, &v, false, "long-run", &mut st);
+                    cx.count_n("long_runs_accepted", st.ok);
+                    cx.count_n("long_runs_rejected", st.err);
+                    cx.max("max.long_run_records", reps as u64);
+                }
             }
             "ir-scale" => {
                 // n = 100 * shape + 2 * size index + path; shapes: 0 one structure with many elements, 1 many structures of one element,
